@@ -337,6 +337,24 @@ def _build_and_run(tier, seed, profiles):
                 surfaces[d["name"]] = dumpparse.surface(dump_texts[d["name"]])
             except Exception as e:  # noqa
                 surfaces[d["name"]] = []
+    # token scan of the expansions: `unsafe`, and paths rooted outside core / arbitrary_int / the declaration itself
+    token_scan = {}
+    for name, text in dump_texts.items():
+        d = table[name]
+        # user-supplied identifiers (the base type as written, custom field types) are the user's own names
+        allowed = {"core", "arbitrary_int", "Self", name, "Partial" + name, "Result", "Option", "Default", d.get("base", "")}
+        for f in d.get("fields", []):
+            if f.get("custom"):
+                allowed.add(f["custom"])
+        bad = []
+        try:
+            for pth in dumpparse.paths(text):
+                root = pth[1] if pth[0] == "" else pth[0]
+                if root not in allowed:
+                    bad.append("::".join(pth))
+            token_scan[name] = {"unsafe": dumpparse.has_unsafe(text), "bad_paths": sorted(set(bad))[:10]}
+        except Exception as e:  # noqa
+            token_scan[name] = {"unsafe": False, "bad_paths": ["<scan failed: %s>" % e]}
 
     # ---- model verdicts ---------------------------------------------------------------------------
     proto = render.proto_decls(decls)
@@ -423,6 +441,7 @@ def _build_and_run(tier, seed, profiles):
         "rustc_rejected": rejected,
         "unattributed": unattr,
         "surfaces": {k: [list(x) for x in v] for k, v in surfaces.items()},
+        "token_scan": token_scan,
         "model": model,
         "runner_dropped": run_dropped,
         "runner_unattributed": run_unattr,
